@@ -158,6 +158,8 @@ type kdcSet struct {
 	kdcs  []*fakeKDC
 	proxy kdcproxy.KerberosProxy
 	srv   *httptest.Server
+	conf  string // the krb5.conf naming these KDCs
+	url   string // base URL of the server in front of the proxy (the in-process one, or a real gateway)
 }
 
 func newKdcSet(dir, name string, modes [][2]string) *kdcSet {
@@ -185,6 +187,7 @@ func newKdcSet(dir, name string, modes [][2]string) *kdcSet {
 	mux := http.NewServeMux()
 	mux.HandleFunc("/KdcProxy", s.proxy.Handler)
 	s.srv = httptest.NewServer(mux)
+	s.conf, s.url = p, s.srv.URL
 	return s
 }
 
@@ -207,7 +210,7 @@ func kdcRequest(s *kdcSet, method string, body []byte, chunked bool) (int, []byt
 		// the server answers from the declared length alone and closes: announce the length, send a
 		// part of the body, read the answer (a full-speed upload races with the server's close)
 		t0 := time.Now()
-		c, err := net.DialTimeout("tcp", strings.TrimPrefix(s.srv.URL, "http://"), 3*time.Second)
+		c, err := net.DialTimeout("tcp", strings.TrimPrefix(s.url, "http://"), 3*time.Second)
 		if err != nil {
 			return 0, nil, time.Since(t0), false
 		}
@@ -223,7 +226,7 @@ func kdcRequest(s *kdcSet, method string, body []byte, chunked bool) (int, []byt
 		return resp.StatusCode, b, time.Since(t0), true
 	}
 	var rd io.Reader = bytes.NewReader(body)
-	req, _ := http.NewRequest(method, s.srv.URL+"/KdcProxy", rd)
+	req, _ := http.NewRequest(method, s.url+"/KdcProxy", rd)
 	if chunked {
 		req.ContentLength = -1
 		req.Body = io.NopCloser(rd)
@@ -433,4 +436,112 @@ func streamC20(env *runEnv) {
 			k.mu.Unlock()
 		}
 	}
+}
+
+func init() { streams["c20gw"] = streamC20gw }
+
+// streamC20gw: the KDC-proxy endpoint of the real binary (started with
+// Kerberos authentication, the krb5.conf naming the scripted KDCs): the route,
+// its method filter and the server settings of main() are part of the answer a
+// client gets, in particular for KDCs that stay silent for the whole wait.
+func streamC20gw(env *runEnv) {
+	if rdpgwBinary == "" {
+		return
+	}
+	r := rand.New(rand.NewSource(env.seed))
+	mk := func(msg []byte, realm string) []byte {
+		b, _ := asn1.Marshal(kdcProxyMsg{Message: msg, Realm: realm})
+		return b
+	}
+	withLen := func(n int) []byte {
+		m := make([]byte, 4+n)
+		binary.BigEndian.PutUint32(m, uint32(n))
+		r.Read(m[4:])
+		return m
+	}
+	type job struct {
+		method  string
+		body    []byte
+		chunked bool
+		tag     string
+	}
+	var wg sync.WaitGroup
+	var emu sync.Mutex
+	for si, sd := range []struct {
+		name  string
+		modes [][2]string
+	}{
+		{"gw-tcp-reply", [][2]string{{"reply-close", "refuse"}}},
+		{"gw-udp-reply", [][2]string{{"refuse", "reply"}}},
+		{"gw-silent", [][2]string{{"silent", "silent"}}},
+		{"gw-partial", [][2]string{{"partial", "silent"}}},
+		{"gw-refuse", [][2]string{{"refuse", "refuse"}}},
+	} {
+		dir := filepath.Join(env.workdir, fmt.Sprintf("c20gw-%d", si))
+		set := newKdcSet(dir, sd.name, sd.modes)
+		kt, _ := writeKerberosFiles(dir, []string{"127.0.0.1:1"})
+		gc := gwConfig{authSet: true, auth: []string{"kerberos"}, tlsDisable: true, hosts: []string{"10.9.8.7:3389"}, hostSelection: "roundrobin",
+			tokenAuth: bp(false), keytab: kt, krb5conf: set.conf}
+		yaml, ev := gc.render("file")
+		g, ok := startGateway(dir, yaml, ev, false)
+		if !ok {
+			panic("C20 gw: gateway did not start: " + g.logs())
+		}
+		set.url = g.base()
+		valid := mk(withLen(30), "")
+		jobs := []job{
+			{"POST", valid, false, "valid"}, {"POST", mk(withLen(1024), "EXAMPLE.TEST"), false, "valid"}, {"POST", mk(withLen(20), "UNKNOWN.TEST"), false, "realm"},
+		}
+		if si == 0 {
+			jobs = append(jobs, job{"GET", valid, false, "method"}, job{"PUT", valid, false, "method"}, job{"POST", valid, true, "nolength"},
+				job{"POST", make([]byte, 131072+1), false, "toolarge"}, job{"POST", valid[:7], false, "malformed"},
+				job{"POST", append(append([]byte{}, valid...), 0), false, "malformed"})
+		}
+		var swg sync.WaitGroup
+		for _, j := range jobs {
+			wg.Add(1)
+			swg.Add(1)
+			go func(j job) {
+				defer wg.Done()
+				defer swg.Done()
+				st, body, lat, ok := kdcRequest(set, j.method, j.body, j.chunked)
+				obs := "no-response"
+				if ok {
+					obs = fmt.Sprintf("st=%d", st)
+					if st == 200 {
+						var m kdcProxyMsg
+						rest, err := asn1.Unmarshal(body, &m)
+						if err != nil || len(rest) != 0 {
+							obs += " reply=undecodable"
+						} else {
+							obs += " reply=" + hx(m.Message)
+						}
+					}
+				}
+				bound := "in-time"
+				if lat > 11*time.Second {
+					bound = "late"
+				}
+				cl := fmt.Sprint(len(j.body))
+				if j.chunked {
+					cl = "none"
+				}
+				emu.Lock()
+				env.count("c20gw." + j.tag)
+				env.emit("kdc", j.method, cl, hx(j.body), set.spec(), obs+" "+bound)
+				emu.Unlock()
+			}(j)
+		}
+		go func() {
+			swg.Wait()
+			g.stop()
+			for _, k := range set.kdcs {
+				k.stop()
+			}
+			set.srv.CloseClientConnections()
+			set.srv.Close()
+		}()
+	}
+	wg.Wait()
+	time.Sleep(100 * time.Millisecond)
 }
